@@ -65,11 +65,12 @@ SQLITE = [("rdb", 1.0), ("cached", 1.0), ("grpc(rdb)", 0.5), ("grpc(cached)", 0.
 SQLITE_INNER = {"rdb", "cached"}
 ENV_IDS = "ABCDEFGH"
 # Samplers whose behaviour depends on the ORDER of FrozenTrial.params/distributions.  The gRPC
-# proxy carries both in protobuf map<> fields whose iteration order (upb) is a hash order: the
-# suggestion order is lost (genuine defect, known finding F17, signature kind `grpc-param-order`).
-# That hash order is seeded per OS process from an ASLR address; ./check pins it by running the
-# interpreters under `setarch -R`.  Half of the runs of these samplers avoid grpc(...) environments so
-# that the rest of their behaviour is checked too; VERIF_C09_GRPC_ORDER=0 avoids them always.
+# proxy carries both in protobuf map<> fields and rebuilds the dicts in map iteration order, which
+# is unspecified (upb: a hash order that depends on heap addresses): the suggestion order is lost
+# (genuine defect, known finding F17, signature kind `grpc-param-order`).  The iteration order is a
+# seam of this check (_ProtoMapOrder: seeded per environment).  Half of the runs of these samplers
+# avoid grpc(...) environments so that the rest of their behaviour is checked too;
+# VERIF_C09_GRPC_ORDER=0 avoids them always.
 ORDER_SENSITIVE = {"brute", "qmc"}
 
 EVIDENCE = {
@@ -82,13 +83,13 @@ EVIDENCE = {
         "BruteForceSampler/GridSampler get n_trials below the size of their space (an optimize call issued after exhaustion re-evaluates a point by design)",
         "trial timestamps and trial ids legitimately differ between environments; they are compared only in the copy_study clause (timestamps) or never (ids)",
         "same-environment repeat that differs only by numeric noise (or for the torch based GPSampler) -> run inconclusive, counter excluded:<sampler>; a gross difference is a violation",
-        "PYTHONHASHSEED is pinned to 0 in this tier (the hash-seed axis of DESIGN.md is a thorough-tier selftest, not part of this module)",
+        "PYTHONHASHSEED is pinned to 0 for the harness; the hash-seed axis is exercised in the thorough tier only (10% of the runs re-run their first environment in a fresh interpreter under another PYTHONHASHSEED; VERIF_C09_HASHSEED_RATE overrides the rate)",
         "copy_study: source and target deployments live in one simulation, therefore never both SQLite-backed, both journal-file-backed or both gRPC",
         "CMA-ES is not installed; GP is drawn at a low rate with <=7 trials (0.1 s per GP trial)",
     ],
     "components": {
         "real": "optuna Study.optimize/ask/tell, Trial.suggest_*/report/should_prune, all built-in samplers except CMA-ES (Random, TPE default/multivariate/group/constant_liar, NSGA-II, NSGA-III, QMC, GP, Grid, BruteForce, PartialFixed), all pruners (Nop, Median, Percentile, SuccessiveHalving, Hyperband, Patient, Threshold, Wilcoxon), copy_study/load_study, InMemoryStorage, JournalStorage (file: symlink/open lock, redis: single/cluster), RDBStorage on sqlite3 via SQLAlchemy, _CachedStorage, GrpcStorageProxy + servicer, numpy/scipy/torch",
-        "stub": "OS scheduler/processes (simkit), journal file system (SimFS), redis (SimRedis), gRPC transport and server pool (SimNet), clocks, uuid",
+        "stub": "OS scheduler/processes (simkit), journal file system (SimFS), redis (SimRedis), gRPC transport and server pool (SimNet), clocks, uuid, iteration order of protobuf map fields where the proxy builds FrozenTrials (seeded permutation instead of upb's address-dependent hash order)",
     },
 }
 
@@ -475,6 +476,7 @@ def _gen_env(rng: random.Random, eid: str, kind: str, n_trials: int, clean: bool
         "t0": 1_700_000_000.0 if clean else rng.choice([1_700_000_000.0, 1_000_000_000.25, 946_684_800.0, 4_000_000_000.5, 86_400.0 * 400]),
         "jumps": [] if clean else [rng.choice([3600.0, -86_400.0, 0.5, 1e6, -0.001, 31_536_000.0, -3.5]) for _ in range(rng.randint(0, 3))],
         "uuid_salt": "s%d" % rng.randint(0, 999),
+        "map_salt": rng.randint(0, 999),
         "pool": rng.choice([1, 2, 3, 10]),
         "snapshot_interval": rng.choice([2, 3, 5, 100]),
         "read_block": rng.choice([16, 64, 8192]),
@@ -573,8 +575,18 @@ def gen_plan(seed: int, run: int, tier: str) -> dict:
         "program": prog,
         "envs": envs,
         "copy": cp,
+        # thorough tier: the first environment is run once more in a fresh interpreter under another
+        # PYTHONHASHSEED (str-keyed set/dict-of-set iteration order inside optuna must not matter)
+        "hashseed": rng.choice([1, 2, 3, 12345, 4294967295]) if rng.random() < _hashseed_rate(tier) and sname != "gp" else None,
         "sched": {"seed": rng.getrandbits(48)},
     }
+
+
+def _hashseed_rate(tier: str) -> float:
+    v = os.environ.get("VERIF_C09_HASHSEED_RATE")
+    if v is not None:
+        return float(v)
+    return 0.1 if tier == "thorough" else 0.0
 
 
 def _inner(kind: str) -> str:
@@ -890,44 +902,69 @@ def _make_pre(st: Any, pre: list) -> Any:
     return live
 
 
-class _Reorder:
-    """Diagnostic only (never on the verdict path): while active, trials parsed from protobuf get
-    their params/distributions re-ordered to the order observed in a non-gRPC environment."""
+class _ProtoMapOrder:
+    """Seam for the iteration order of protobuf map<> fields.
 
-    def __init__(self, order: dict | None) -> None:
-        self.order = order
+    The protobuf spec leaves map iteration order undefined; the installed implementation (upb)
+    iterates in a hash order that depends on heap addresses: it differs between interpreters and
+    between message instances, with or without ASLR.  The gRPC proxy builds FrozenTrial.params,
+    .distributions, .user_attrs, .system_attrs and .intermediate_values by iterating such maps
+    (servicer._from_proto_trial, used by client and servicer).  To keep the verdict a function of
+    the plan, the simulator owns this nondeterminism: while an environment runs, the dicts built
+    from protobuf maps are re-ordered by a keyed hash of (environment's map_salt, key) - an
+    arbitrary but reproducible order, exactly as arbitrary as the real one.
+
+    `ref` (diagnostic re-run only, never on the verdict path): params/distributions of trial
+    number n are put in the order ref[n] - the suggestion order observed in a non-proxy environment.
+    """
+
+    def __init__(self, salt: str, ref: dict | None = None) -> None:
+        self.salt = salt
+        self.ref = ref
 
     def __enter__(self) -> None:
-        if self.order is None:
-            return
+        from optuna.storages._grpc import client as gc_
         from optuna.storages._grpc import servicer as gs
 
-        self.gs = gs
-        self.orig = orig = gs._from_proto_trial
-        order = self.order
+        # simkit installs its own wrapper (dicts sorted by key); wrap whatever is installed then
+        seams.install()
+        orig = gs.__dict__["_from_proto_trial"]
+        if getattr(orig, "_c09_seam", False):
+            raise _HarnessBug("nested protobuf map order seam")
+        self.orig = orig
+        salt, ref = self.salt, self.ref
+
+        def rank(k: Any) -> bytes:
+            return hashlib.blake2b(("%s/%r" % (salt, k)).encode(), digest_size=8).digest()
+
+        def hashed(d: dict) -> dict:
+            return {k: d[k] for k in sorted(d, key=rank)} if len(d) > 1 else d
 
         def patched(proto: Any) -> Any:
             t = orig(proto)
-            ref = order.get(t.number) or []
-            keys = [k for k in ref if k in t.params] + [k for k in t.params if k not in ref]
-            t.params = {k: t.params[k] for k in keys}
-            dk = [k for k in ref if k in t.distributions] + [k for k in t.distributions if k not in ref]
-            t.distributions = {k: t.distributions[k] for k in dk}
+            t.user_attrs = hashed(t.user_attrs)
+            t.system_attrs = hashed(t.system_attrs)
+            t.intermediate_values = hashed(t.intermediate_values)
+            if ref is None:
+                t.params = hashed(t.params)
+                t.distributions = hashed(t.distributions)
+            else:
+                r = ref.get(t.number) or []
+                t.params = {k: t.params[k] for k in [k for k in r if k in t.params] + [k for k in hashed(t.params) if k not in r]}
+                t.distributions = {k: t.distributions[k] for k in [k for k in r if k in t.distributions] + [k for k in hashed(t.distributions) if k not in r]}
             return t
 
-        from optuna.storages._grpc import client as gc_
-
+        patched._c09_seam = True  # type: ignore[attr-defined]
         # the client module reaches the servicer through a _LazyImport object that holds a copy
         # of the module dict after its first use: patch both
-        self.targets = [gs, gc_.grpc_servicer]
         getattr(gc_.grpc_servicer, "_from_proto_trial")  # force the lazy load before patching
+        self.targets = [gs, gc_.grpc_servicer]
         for tgt in self.targets:
             setattr(tgt, "_from_proto_trial", patched)
 
     def __exit__(self, *a: Any) -> None:
-        if self.order is not None:
-            for tgt in self.targets:
-                setattr(tgt, "_from_proto_trial", self.orig)
+        for tgt in self.targets:
+            setattr(tgt, "_from_proto_trial", self.orig)
 
 
 class _GaParentsById:
@@ -967,7 +1004,10 @@ class _GaParentsById:
 
 def run_env(plan: dict, env: dict, merged: _Chooser, totals: dict, with_copy: bool = False, reorder: dict | None = None, ga_by_id: bool = False) -> dict:
     """Run the whole optimisation in one environment.  Returns trace (+ copy views)."""
-    with _Reorder(reorder), _GaParentsById(ga_by_id):
+    if not (env["kind"].startswith("grpc(") or (with_copy and str((plan.get("copy") or {}).get("kind", "")).startswith("grpc("))):
+        with _GaParentsById(ga_by_id):
+            return _run_env(plan, env, merged, totals, with_copy)
+    with _ProtoMapOrder("%s/%s" % (plan.get("seed", 0), env.get("map_salt", 0)), reorder), _GaParentsById(ga_by_id):
         return _run_env(plan, env, merged, totals, with_copy)
 
 
@@ -1255,9 +1295,24 @@ def _run_plan(plan: dict) -> dict:
             return finish("violation", prefix + "%s|%s vs %s|%s" % (kind_, r0["label"], r["label"], d[0]), "same seed, same objective, different environment -> different run: %s (left: environment %s, right: environment %s)%s" % (d[1], base_env.get("id"), env.get("id"), extra), nontrivial=True)
         last = (env, r)
     count("env_ids_differ", ids_differ)
+    if plan.get("hashseed") is not None:
+        rh = _run_under_hashseed(plan, base_env, int(plan["hashseed"]))
+        count("hashseed_runs")
+        h.update(json.dumps(rh["trace"], sort_keys=True).encode())
+        if rh["trace"] != r0["trace"] or rh["exc"] != r0["exc"]:
+            d = first_diff(r0["trace"], rh["trace"], TRACE_FIELDS) or ("exception", "exception out of optimize: %s  vs  %s" % (r0["exc"], rh["exc"]))
+            return finish("violation", prefix + "hashseed-divergence|%s|%s" % (r0["label"], d[0]), "same plan, same environment (%s), fresh interpreter with PYTHONHASHSEED=%s instead of %s -> different run: %s" % (_env_str(base_env), plan["hashseed"], os.environ.get("PYTHONHASHSEED", "random"), d[1]), nontrivial=True)
     if r0["exc"] is not None:
         e = r0["exc"]
-        return finish("violation", prefix + "exception|%s at %s" % (e["type"], e["where"]), "optimize raised in every environment alike: %s" % e, nontrivial=True)
+        if sname == "nsga2" and r0["ids_differ"] and e["type"] == "IndexError" and "get_parent_population" in e["where"]:
+            # F7 in every environment (none has trial ids == trial numbers): confirm the cause directly
+            rr = run_env(plan, base_env, _Chooser(), {"counters": {}, "sim_seconds": 0.0, "steps": 0, "switches": 0}, ga_by_id=True)
+            if rr.get("status") == "ok" and rr["exc"] is None:
+                return finish("violation", prefix + "ga-parent-cache-by-id|%s (every environment)|IndexError" % r0["label"], "optimize raised in every environment alike (trial ids differ from trial numbers in all of them): %s\n  cause: BaseGASampler.get_parent_population uses the cached trial ids as indexes into the trial list; with the ids resolved by id the run completes" % e, nontrivial=True)
+        # An exception that is the same in every environment is reproducible: not a C09 matter.
+        # It is made visible (inconclusive + counter) because the run could not be completed.
+        count("exception_everywhere:%s:%s at %s" % (sname, e["type"], e["where"]))
+        return finish("inconclusive", prefix + "exception-everywhere|%s at %s" % (e["type"], e["where"]), "optimize raised in every environment alike (reproducible, hence no C09 violation): %s" % e)
     nontrivial = len(tr) >= 4 and ncmp >= 1 and ids_differ >= 1
 
     # ---- clause 3: copy_study
@@ -1282,6 +1337,38 @@ def _run_plan(plan: dict) -> dict:
         count("copied_with_intermediate", sum(1 for t in c["src"] if t["iv"]))
         count("copied_with_system_attrs", sum(1 for t in c["src"] if t["system_attrs"] != "{}"))
     return finish("ok", nontrivial=nontrivial)
+
+
+def _run_under_hashseed(plan: dict, env: dict, hashseed: int) -> dict:
+    """Run one environment of the plan in a fresh interpreter under another PYTHONHASHSEED."""
+    import subprocess
+    import sys
+
+    root = os.path.dirname(os.path.dirname(os.path.abspath(__file__)))
+    child_env = dict(os.environ)
+    child_env["PYTHONHASHSEED"] = str(hashseed)
+    child_env["PYTHONPATH"] = root + os.pathsep + child_env.get("PYTHONPATH", "")
+    code = "import sys; from checks import c09_repro as c; sys.exit(c._hashseed_child())"
+    p = subprocess.run([sys.executable, "-c", code], input=json.dumps({"plan": plan, "env": env}).encode(), stdout=subprocess.PIPE, stderr=subprocess.PIPE, env=child_env, cwd=root, timeout=600)
+    lines = [ln for ln in p.stdout.decode().splitlines() if ln.startswith("C09CHILD ")]
+    if p.returncode != 0 or not lines:
+        raise _HarnessBug("hash-seed child failed (exit %s): %s" % (p.returncode, p.stderr.decode()[-1500:]))
+    return json.loads(lines[-1][len("C09CHILD ") :])
+
+
+def _hashseed_child() -> int:
+    import sys
+
+    import optuna
+
+    optuna.logging.set_verbosity(optuna.logging.CRITICAL)
+    warnings.simplefilter("ignore")
+    req = json.loads(sys.stdin.read())
+    r = run_env(req["plan"], req["env"], _Chooser(), {"counters": {}, "sim_seconds": 0.0, "steps": 0, "switches": 0})
+    if r.get("status") != "ok":
+        return 3
+    print("C09CHILD " + json.dumps({"trace": r["trace"], "exc": r["exc"]}))
+    return 0
 
 
 def trace_of_full(full: list) -> list:
